@@ -574,6 +574,7 @@ type sizeCase struct {
 	Kind    string   `json:"kind"` // data table wal index
 	Entries []cEntry `json:"entries"`
 	Block   int      `json:"block_size"`
+	HugeMiB int      `json:"huge_mib,omitempty"` // the big value is this many MiB, and small round trips follow in the same goroutine
 }
 
 var bigLens = []int{65536, 65537, 70000, 131072, 200000}
@@ -604,6 +605,19 @@ func genSizeCase(t *rapid.T) sizeCase {
 				e.Val.Pat = "v"
 			}
 		}
+		if i == bigAt && c.Kind != "index" && rapid.IntRange(0, 11).Draw(t, "huge") == 0 {
+			// size class: one value of many MiB (what a default-size memtable, table or wal holds),
+			// followed by ordinary small round trips on whatever the codecs kept from it
+			c.HugeMiB = rapid.SampledFrom([]int{5, 20, 40}).Draw(t, "hugeMiB")
+			e.Val.N = c.HugeMiB << 20
+			e.NilVal = false
+			if len(e.Val.Pat) == 0 {
+				e.Val.Pat = "v"
+			}
+			if e.Prefix.N > 300 {
+				e.Prefix.N = 300
+			}
+		}
 		c.Entries = append(c.Entries, e)
 		if i == bigAt && rapid.Bool().Draw(t, "sharedBigPrefix") {
 			// a neighbour that shares the whole long prefix (prefix compression across >= 64 KiB)
@@ -616,7 +630,28 @@ func genSizeCase(t *rapid.T) sizeCase {
 	return c
 }
 
+// runSize: the round trip of the case itself and, for the many-MiB class, small round trips of
+// every codec afterwards in the same goroutine (three times: the buffer pool is per P).
 func runSize(c sizeCase, scratch string) (msg string) {
+	if msg = runSizeMain(c, scratch); msg != "" || c.HugeMiB == 0 {
+		return msg
+	}
+	small := sizeCase{Block: 4096, Entries: []cEntry{
+		{Prefix: blob{Pat: "k", N: 3}, Suffix: "a@5", Ver: 5, Val: blob{Pat: "v", N: 10}},
+		{Prefix: blob{Pat: "k", N: 3}, Suffix: "b@4", Ver: 4, Val: blob{Pat: "w", N: 200}},
+		{Prefix: blob{Pat: "k", N: 3}, Suffix: "c@3", Ver: 3, Tomb: true, NilVal: true}}}
+	for round := 0; round < 3; round++ {
+		for _, k := range []string{"data", "index", "table", "wal", "footer"} {
+			small.Kind = k
+			if m := runSizeMain(small, scratch); m != "" {
+				return fmt.Sprintf("after a %s round trip with a value of %d MiB, an ordinary small one failed: %s", c.Kind, c.HugeMiB, m)
+			}
+		}
+	}
+	return ""
+}
+
+func runSizeMain(c sizeCase, scratch string) (msg string) {
 	defer func() {
 		if r := recover(); r != nil {
 			msg = fmt.Sprintf("panic in %s codec with an entry of 64 KiB or more: %v", c.Kind, r)
@@ -624,6 +659,19 @@ func runSize(c sizeCase, scratch string) (msg string) {
 	}()
 	es := entriesOf(c.Entries)
 	switch c.Kind {
+	case "footer":
+		f := table.Footer{MetaBlock: table.BlockHandle{Offset: 7, Length: 11}, IndexBlock: table.BlockHandle{Offset: 18, Length: 5}, Magic: tableMagic()}
+		b, err := f.Encode()
+		if err != nil {
+			return "Footer.Encode: " + err.Error()
+		}
+		var out table.Footer
+		if err := out.Decode(b); err != nil {
+			return "Footer.Decode of own encoding: " + err.Error()
+		}
+		if out != f {
+			return fmt.Sprintf("footer round trip: %+v vs %+v", out, f)
+		}
 	case "data":
 		d := table.Data{Entries: es}
 		b, err := d.Encode()
@@ -718,7 +766,11 @@ func TestC11Size(t *testing.T) {
 		cj := vlib.JSON(c)
 		rec.Begin(cj)
 		msg := runSize(c, scratch)
-		rec.End(cj, true, "size_ge_64k", "size_kind_"+c.Kind)
+		cls := []string{"size_ge_64k", "size_kind_" + c.Kind}
+		if c.HugeMiB > 0 {
+			cls = append(cls, "value_of_many_MiB_then_small_round_trips")
+		}
+		rec.End(cj, true, cls...)
 		if msg != "" {
 			rec.Violation("codec_length_overflow", msg, cj, nil)
 			rt.Fatalf("%s", msg)
